@@ -85,6 +85,7 @@ CHECKS = {
     },
     "C19": {
         "test": "TestC19",
+        "race_tier": {"test": "TestC19Free", "race": True, "budget": {"quick": 10, "thorough": 240}},
         "level": "exploration",
         "budget": {"quick": 40, "thorough": 600},
         "rule": ("two populations. window: a timed history of AddSample / clock advance (sub-tick, tick, lifetime +- eps) / Get on the real "
@@ -92,7 +93,9 @@ CHECKS = {
                  "window L <= M <= U (live samples must be reported, expired ones may linger until the next cleaner pass), and the window must be "
                  "empty after lifetime + 5.5 s of silence. server: the C05 workload with recording Stats and Logger; per query the counter deltas "
                  "and logger calls must be exactly what the message actually written dictates. Non-trivial = a Get with live samples (window) / "
-                 "queries under pre-emption (server); distinct = schedule + event hash."),
+                 "queries under pre-emption (server); distinct = schedule + event hash. A free-running tier (race_tier block) lets three writers add unique "
+                 "values continuously across several real cleaner ticks (2 s windows, real clock, race detector on) while a reader takes snapshots: a sample whose "
+                 "AddSample returned before the snapshot and that cannot have expired must be reported; every reported or exported value was added by somebody."),
         "components": {
             "real": ["metrics.Stats, slidingWindow and its cleaner goroutine (1 s ticker on the fake clock)",
                      "dnsserver.FBDNSDB.ServeDNS / writeAndLog counters and logger calls", "cdb / rocksdb drivers"],
